@@ -517,8 +517,15 @@ def op_fn_slice_dim(rng, f):
 
 def op_fn_reduce_dim(rng, f):
     from PseudoNetCDF.core._functions import reduce_dim
+    # (not the vertex dimension of a CF bounds variable: reduce_dim treats
+    # *_bounds variables as cell corners and reducing their corners away is
+    # outside its domain)
+    vertex = set()
+    for k, v in f.variables.items():
+        if ('_bounds' in k or '_bnds' in k) and len(v.dimensions) > 0:
+            vertex.add(v.dimensions[-1])
     dims = [k for k, d in f.dimensions.items() if len(d) > 0 and
-            k in dims_used(f)]
+            k in dims_used(f) and k not in vertex]
     if not dims or not _plain(f) or not all_numeric(f):
         return None
     name = str(rng.choice(dims))
